@@ -249,6 +249,10 @@ func C01(run *core.Run) {
 				t.Pubkey = other.Pubkey
 				h := sha256.Sum256(tbl.canonical(t.Pubkey, t.CreatedAt, t.Kind, t.Tags, t.Content))
 				t.ID = hex.EncodeToString(h[:])
+			case "offcurve-reid":
+				t.Pubkey = offCurvePubkey()
+				h := sha256.Sum256(tbl.canonical(t.Pubkey, t.CreatedAt, t.Kind, t.Tags, t.Content))
+				t.ID = hex.EncodeToString(h[:])
 			case "id-case":
 				t.ID = upperOneHexLetter(ev.ID, r.Intn(64))
 				if t.ID == ev.ID {
@@ -266,7 +270,8 @@ func C01(run *core.Run) {
 				// Canon!Lexical: judged by the admission verdict Valid /\ Verify
 				ok = ok && t.Valid()
 			}
-			if (ok && err == nil) != authentic {
+			// authentic: (true, nil); not authentic: the verdict itself must be false, whatever the error says
+			if (authentic && !(ok && err == nil)) || (!authentic && ok) {
 				run.Violate("verify-accepts-tampered:"+name, fmt.Sprintf("event with tampered %s reported authentic=(%v,%v), Canon says %v: %+v", name, ok, err, authentic, t),
 					map[string]any{"original": ev, "tampered": t})
 			}
